@@ -1,6 +1,510 @@
 package main
 
-import "verif/harness/hx"
+import (
+	"bytes"
+	"context"
+	"encoding/json"
+	"fmt"
+	"io"
+	"math/rand"
+	"net/http/httptest"
+	"strconv"
+	"strings"
+	"sync"
+	"time"
+	"unsafe"
 
-func runHist(f *hx.Flags, out *hx.Out)  {}
-func runDates(f *hx.Flags, out *hx.Out) {}
+	"github.com/ClickHouse/ch-go"
+	"github.com/ClickHouse/ch-go/proto"
+	"github.com/ClickHouse/clickhouse-go/v2/lib/driver"
+	"github.com/gorilla/mux"
+	cfgbase "github.com/metrico/cloki-config/config"
+	"github.com/metrico/qryn/writer/ch_wrapper"
+	"github.com/metrico/qryn/writer/config"
+	controllerv1 "github.com/metrico/qryn/writer/controller"
+	"github.com/metrico/qryn/writer/model"
+	apirouterv1 "github.com/metrico/qryn/writer/router"
+	"github.com/metrico/qryn/writer/service"
+	"github.com/metrico/qryn/writer/service/impl"
+	"github.com/metrico/qryn/writer/service/registry"
+	"github.com/metrico/qryn/writer/utils/logger"
+	"github.com/metrico/qryn/writer/utils/numbercache"
+	"github.com/metrico/qryn/writer/utils/unmarshal"
+
+	"verif/harness/hx"
+)
+
+// ------------------------------------------------------------------ fake ClickHouse client
+
+// Call: one INSERT that reached the client. Rows: time_series (date as days, fingerprint, type);
+// samples (fingerprint, timestamp_ns, type) - numbers as decimal strings.
+type Call struct {
+	Table string      `json:"table"`
+	OK    bool        `json:"ok"`
+	Rows  [][3]string `json:"rows"`
+	Docs  []string    `json:"docs,omitempty"` // time_series.labels, hex
+}
+
+type backend struct {
+	mtx   sync.Mutex
+	tsOK  bool
+	splOK bool
+	calls []Call
+	nSpl  int
+}
+
+var be = &backend{tsOK: true, splOK: true}
+
+type fakeClient struct{}
+
+func colU8(d proto.ColInput) []uint8 {
+	switch c := d.(type) {
+	case proto.ColUInt8:
+		return c
+	case *proto.ColUInt8:
+		return *c
+	}
+	panic(fmt.Sprintf("unexpected uint8 column %T", d))
+}
+func colU64(d proto.ColInput) []uint64 {
+	switch c := d.(type) {
+	case proto.ColUInt64:
+		return c
+	case *proto.ColUInt64:
+		return *c
+	}
+	panic(fmt.Sprintf("unexpected uint64 column %T", d))
+}
+func colI64(d proto.ColInput) []int64 {
+	switch c := d.(type) {
+	case proto.ColInt64:
+		return c
+	case *proto.ColInt64:
+		return *c
+	}
+	panic(fmt.Sprintf("unexpected int64 column %T", d))
+}
+func colDate(d proto.ColInput) []proto.Date {
+	switch c := d.(type) {
+	case proto.ColDate:
+		return c
+	case *proto.ColDate:
+		return *c
+	}
+	panic(fmt.Sprintf("unexpected date column %T", d))
+}
+func colStr(d proto.ColInput) []string {
+	switch c := d.(type) {
+	case *proto.ColStr:
+		out := make([]string, c.Rows())
+		for i := range out {
+			out[i] = c.Row(i)
+		}
+		return out
+	case proto.ColStr:
+		out := make([]string, c.Rows())
+		for i := range out {
+			out[i] = c.Row(i)
+		}
+		return out
+	}
+	panic(fmt.Sprintf("unexpected string column %T", d))
+}
+
+func (fakeClient) Do(ctx context.Context, q ch.Query) error {
+	be.mtx.Lock()
+	defer be.mtx.Unlock()
+	cols := map[string]proto.ColInput{}
+	for _, in := range q.Input {
+		cols[in.Name] = in.Data
+	}
+	c := Call{}
+	switch {
+	case strings.Contains(q.Body, "INSERT INTO time_series"):
+		c.Table = "time_series"
+		c.OK = be.tsOK
+		tp, dt, fp, lb := colU8(cols["type"]), colDate(cols["date"]), colU64(cols["fingerprint"]), colStr(cols["labels"])
+		if len(tp) != len(dt) || len(dt) != len(fp) || len(fp) != len(lb) {
+			panic(fmt.Sprintf("time_series block with unequal columns %d %d %d %d", len(tp), len(dt), len(fp), len(lb)))
+		}
+		for i := range dt {
+			c.Rows = append(c.Rows, [3]string{strconv.Itoa(int(dt[i])), strconv.FormatUint(fp[i], 10), strconv.Itoa(int(tp[i]))})
+			c.Docs = append(c.Docs, hx.Hex(lb[i]))
+		}
+	case strings.Contains(q.Body, "INSERT INTO samples"):
+		c.Table = "samples"
+		c.OK = be.splOK
+		be.nSpl++
+		tp, fp, ts := colU8(cols["type"]), colU64(cols["fingerprint"]), colI64(cols["timestamp_ns"])
+		if len(tp) != len(fp) || len(fp) != len(ts) {
+			panic(fmt.Sprintf("samples block with unequal columns %d %d %d", len(tp), len(fp), len(ts)))
+		}
+		for i := range ts {
+			c.Rows = append(c.Rows, [3]string{strconv.FormatUint(fp[i], 10), strconv.FormatInt(ts[i], 10), strconv.Itoa(int(tp[i]))})
+		}
+	default:
+		c.Table = q.Body
+		c.OK = true
+	}
+	be.calls = append(be.calls, c)
+	if !c.OK {
+		return fmt.Errorf("scripted failure of the %s insert", c.Table)
+	}
+	return nil
+}
+func (fakeClient) Ping(ctx context.Context) error                            { return nil }
+func (fakeClient) Exec(ctx context.Context, query string, args ...any) error { return nil }
+func (fakeClient) Scan(ctx context.Context, req string, args []any, dest ...interface{}) error {
+	return nil
+}
+func (fakeClient) DropIfEmpty(ctx context.Context, name string) error { return nil }
+func (fakeClient) TableExists(ctx context.Context, name string) (bool, error) {
+	return true, nil
+}
+func (fakeClient) GetDBExec(env map[string]string) func(ctx context.Context, query string, args ...[]interface{}) error {
+	return nil
+}
+func (fakeClient) GetVersion(ctx context.Context, k uint64) (uint64, error) { return 0, nil }
+func (fakeClient) GetSetting(ctx context.Context, tp string, name string) (string, error) {
+	return "", nil
+}
+func (fakeClient) PutSetting(ctx context.Context, tp string, name string, value string) error {
+	return nil
+}
+func (fakeClient) GetFirst(req string, first ...interface{}) error { return nil }
+func (fakeClient) GetList(req string) ([]string, error)            { return nil, nil }
+func (fakeClient) Query(ctx context.Context, query string, args ...interface{}) (driver.Rows, error) {
+	return nil, fmt.Errorf("not implemented")
+}
+func (fakeClient) QueryRow(ctx context.Context, query string, args ...interface{}) driver.Row {
+	return nil
+}
+func (fakeClient) Close() error { return nil }
+
+// ------------------------------------------------------------------ the writer under test, wired as plugin/qryn_writer_db.go does
+
+var node = &model.DataDatabasesMap{ClokiBaseDataBase: cfgbase.ClokiBaseDataBase{Node: "n1", Name: "qryn", WriteTimeout: 5}}
+var curCache *numbercache.Cache[uint64]
+
+func resetCache() {
+	if curCache != nil {
+		curCache.Stop()
+	}
+	// what the 30-minute ticker does (sets.Reset()) is not reachable from outside the package:
+	// an empty cache of the same construction is installed instead
+	curCache = numbercache.NewCache[uint64](time.Minute*30, func(val uint64) []byte {
+		return unsafe.Slice((*byte)(unsafe.Pointer(&val)), 8)
+	}, map[string]*model.DataDatabasesMap{"n1": node})
+	controllerv1.FPCache = curCache
+}
+
+func setup() *mux.Router {
+	logger.Logger.SetOutput(io.Discard)
+	config.Cloki.Setting.SYSTEM_SETTINGS.RetryAttempts = 1
+	config.Cloki.Setting.SYSTEM_SETTINGS.RetryTimeoutS = 0
+	service.CreateColPools(8)
+	factory := ch_wrapper.IChClientFactory(func() (ch_wrapper.IChClient, error) { return fakeClient{}, nil })
+	mk := func(f func(model.InsertServiceOpts) service.IInsertServiceV2, before func()) service.IInsertServiceV2 {
+		s := f(model.InsertServiceOpts{Session: factory, Node: node, Interval: time.Millisecond, ParallelNum: 1, OnBeforeInsert: before})
+		s.Init()
+		go s.Run()
+		return s
+	}
+	one := func(s service.IInsertServiceV2) map[string]service.IInsertServiceV2 {
+		return map[string]service.IInsertServiceV2{"n1": s}
+	}
+	ts := mk(impl.NewTimeSeriesInsertService, nil)
+	flushTs := func() { ts.PlanFlush() }
+	spl := mk(impl.NewSamplesInsertService, flushTs)
+	mtr := mk(impl.NewMetricsInsertService, flushTs)
+	tsp := mk(impl.NewTempoSamplesInsertService, nil)
+	ttg := mk(impl.NewTempoTagsInsertService, nil)
+	prf := mk(impl.NewProfileSamplesInsertService, nil)
+	controllerv1.Registry = registry.NewStaticServiceRegistry(one(ts), one(spl), one(mtr), one(tsp), one(ttg), one(prf))
+	resetCache()
+	r := mux.NewRouter()
+	cfg := controllerv1.NewMiddlewareConfig(controllerv1.WithExtraMiddlewareDefault...)
+	apirouterv1.RouteInsertDataApis(r, cfg)
+	apirouterv1.RoutePromDataApis(r, cfg)
+	return r
+}
+
+// push sends one Loki JSON push with the given scripted outcomes and returns the status and the
+// INSERTs that reached the client because of it.
+func push(r *mux.Router, body string, tsOK, splOK bool) (int, []Call) {
+	be.mtx.Lock()
+	be.tsOK, be.splOK = tsOK, splOK
+	be.calls = nil
+	n0 := be.nSpl
+	be.mtx.Unlock()
+	req := httptest.NewRequest("POST", "/loki/api/v1/push", bytes.NewReader([]byte(body)))
+	req.Header.Set("Content-Type", "application/json")
+	w := httptest.NewRecorder()
+	r.ServeHTTP(w, req)
+	// the handler returns at the first failed insert; the samples insert of the same request may
+	// still be on its way - wait for it so that it is attributed (and scripted) correctly
+	deadline := time.Now().Add(3 * time.Second)
+	for {
+		be.mtx.Lock()
+		done := be.nSpl > n0
+		be.mtx.Unlock()
+		if done || w.Code == 400 || time.Now().After(deadline) {
+			break
+		}
+		time.Sleep(200 * time.Microsecond)
+	}
+	time.Sleep(300 * time.Microsecond)
+	be.mtx.Lock()
+	calls := append([]Call(nil), be.calls...)
+	be.mtx.Unlock()
+	return w.Code, calls
+}
+
+// ------------------------------------------------------------------ histories
+
+type Entry struct {
+	Ts int64 `json:"ts"` // ns
+	T  int   `json:"t"`  // 1 log, 2 metric, 0 both
+}
+type Stream struct {
+	Ls      int     `json:"ls"` // index into the label-set pool
+	Fp      string  `json:"fp"` // fingerprintLabels of that set (hook)
+	Entries []Entry `json:"entries"`
+}
+type Step struct {
+	K       string   `json:"k"` // push | reset
+	Streams []Stream `json:"streams,omitempty"`
+	TsOK    bool     `json:"ts_ok"`
+	SplOK   bool     `json:"spl_ok"`
+	Retry   bool     `json:"retry,omitempty"` // same body as the previous push (a client retry)
+}
+type StepObs struct {
+	Status int    `json:"status"`
+	Calls  []Call `json:"calls"`
+}
+type HCase struct {
+	ID    int       `json:"id"`
+	Class string    `json:"class"`
+	Steps []Step    `json:"steps"`
+	Obs   []StepObs `json:"obs"`
+	Panic string    `json:"panic,omitempty"`
+}
+
+var pool = [][][]string{
+	{{"app", "api"}, {"env", "prod"}},
+	{{"app", "db"}},
+	{{"job", "node"}, {"instance", "10.0.0.1:9100"}, {"env", "prod"}},
+	{{"app", "api"}, {"env", "dev"}},
+}
+
+func poolFp(i int) string {
+	san := unmarshal.VerifC04SanitizeLabels(copyLabels(pool[i]))
+	return strconv.FormatUint(unmarshal.VerifC04FingerprintLabels(san), 10)
+}
+
+const day0 = int64(19732) // 2024-01-10
+
+func genTs(r *rand.Rand) int64 {
+	d := day0 + int64(r.Intn(2))
+	var sec int64
+	switch r.Intn(4) {
+	case 0:
+		sec = 0 // midnight
+	case 1:
+		sec = 86399
+	default:
+		sec = int64(r.Intn(86400))
+	}
+	ns := int64(0)
+	if r.Intn(3) == 0 {
+		ns = int64(r.Intn(1000000000))
+	}
+	return (d*86400+sec)*1000000000 + ns
+}
+
+func genStream(r *rand.Rand, pref []int) Stream {
+	ls := r.Intn(len(pool))
+	s := Stream{Ls: ls, Fp: poolFp(ls)}
+	n := 1 + r.Intn(3)
+	for i := 0; i < n; i++ {
+		t := pref[ls]
+		if r.Intn(6) == 0 {
+			t = r.Intn(3)
+		}
+		s.Entries = append(s.Entries, Entry{Ts: genTs(r), T: t})
+	}
+	return s
+}
+
+func genHist(r *rand.Rand, id int) HCase {
+	c := HCase{ID: id}
+	pref := make([]int, len(pool))
+	for i := range pref {
+		pref[i] = []int{1, 1, 1, 2, 0}[r.Intn(5)]
+	}
+	n := 1 + r.Intn(8)
+	faulty := r.Intn(3) != 0
+	var last *Step
+	for i := 0; i < n; i++ {
+		ok := func(p int) bool { return !faulty || r.Intn(100) < p }
+		switch x := r.Intn(20); {
+		case x < 3:
+			c.Steps = append(c.Steps, Step{K: "reset"})
+		case x < 7 && last != nil:
+			st := Step{K: "push", Streams: last.Streams, TsOK: ok(85), SplOK: ok(90), Retry: true}
+			c.Steps = append(c.Steps, st)
+		default:
+			st := Step{K: "push", TsOK: ok(70), SplOK: ok(88)}
+			k := 1 + r.Intn(3)
+			for j := 0; j < k; j++ {
+				st.Streams = append(st.Streams, genStream(r, pref))
+			}
+			c.Steps = append(c.Steps, st)
+			last = &c.Steps[len(c.Steps)-1]
+		}
+	}
+	switch {
+	case !faulty:
+		c.Class = "no-faults"
+	default:
+		c.Class = "faults"
+	}
+	return c
+}
+
+func bodyOf(st Step) string {
+	var ss []string
+	for _, s := range st.Streams {
+		var m []string
+		for _, kv := range pool[s.Ls] {
+			m = append(m, jsonStr(kv[0])+":"+jsonStr(kv[1]))
+		}
+		var es []string
+		for _, e := range s.Entries {
+			o := `{"ts":"` + strconv.FormatInt(e.Ts, 10) + `"`
+			if e.T == 1 || e.T == 0 {
+				o += `,"line":"l"`
+			}
+			if e.T == 2 || e.T == 0 {
+				o += `,"value":1.5`
+			}
+			es = append(es, o+"}")
+		}
+		ss = append(ss, `{"stream":{`+strings.Join(m, ",")+`},"entries":[`+strings.Join(es, ",")+`]}`)
+	}
+	return `{"streams":[` + strings.Join(ss, ",") + `]}`
+}
+
+func runHistCase(r *mux.Router, c *HCase) {
+	time.Local = time.UTC
+	resetCache()
+	c.Obs = nil
+	c.Panic = hx.Catch(func() {
+		for i := range c.Steps {
+			st := &c.Steps[i]
+			if st.K == "reset" {
+				resetCache()
+				c.Obs = append(c.Obs, StepObs{})
+				continue
+			}
+			for j := range st.Streams {
+				st.Streams[j].Fp = poolFp(st.Streams[j].Ls)
+			}
+			code, calls := push(r, bodyOf(*st), st.TsOK, st.SplOK)
+			c.Obs = append(c.Obs, StepObs{Status: code, Calls: calls})
+		}
+	})
+}
+
+func runHist(f *hx.Flags, out *hx.Out) {
+	r := setup()
+	if f.Cases != "" {
+		hx.ReadLines(f.Cases, func(b []byte) {
+			var c HCase
+			if err := json.Unmarshal(b, &c); err != nil {
+				panic(err)
+			}
+			runHistCase(r, &c)
+			out.Put(c)
+		})
+		return
+	}
+	rnd := hx.Rand(f.Seed)
+	for i := 0; i < f.N; i++ {
+		c := genHist(rnd, i)
+		runHistCase(r, &c)
+		out.Put(c)
+	}
+}
+
+// ------------------------------------------------------------------ dates under a process time zone
+
+type DCase struct {
+	ID     int    `json:"id"`
+	Class  string `json:"class"`
+	Offset int    `json:"offset"` // seconds east of UTC of time.Local
+	Ts     int64  `json:"ts"`     // ns
+	Status int    `json:"status"`
+	Date   int    `json:"date"` // days since the epoch in the date column of the series row; -1 none
+	Panic  string `json:"panic,omitempty"`
+}
+
+func runDateCase(r *mux.Router, c *DCase) {
+	time.Local = time.FixedZone("verif", c.Offset)
+	defer func() { time.Local = time.UTC }()
+	resetCache()
+	c.Date = -1
+	c.Panic = hx.Catch(func() {
+		st := Step{K: "push", TsOK: true, SplOK: true, Streams: []Stream{{Ls: 1, Entries: []Entry{{Ts: c.Ts, T: 1}}}}}
+		code, calls := push(r, bodyOf(st), true, true)
+		c.Status = code
+		for _, cl := range calls {
+			if cl.Table == "time_series" && len(cl.Rows) > 0 {
+				c.Date, _ = strconv.Atoi(cl.Rows[0][0])
+			}
+		}
+	})
+}
+
+func runDates(f *hx.Flags, out *hx.Out) {
+	r := setup()
+	if f.Cases != "" {
+		hx.ReadLines(f.Cases, func(b []byte) {
+			var c DCase
+			if err := json.Unmarshal(b, &c); err != nil {
+				panic(err)
+			}
+			runDateCase(r, &c)
+			out.Put(c)
+		})
+		return
+	}
+	rnd := hx.Rand(f.Seed)
+	id := 0
+	// every whole-hour offset from -12h to +14h, plus the :30 / :45 zones, with instants around UTC and local midnight
+	offs := []int{}
+	for h := -12; h <= 14; h++ {
+		offs = append(offs, h*3600)
+	}
+	offs = append(offs, -9*3600-1800, -3*3600-1800, 5*3600+1800, 5*3600+2700, 12*3600+2700)
+	for _, off := range offs {
+		base := (day0 + int64(rnd.Intn(400))) * 86400
+		secs := []int64{0, 1, 86399, 43200, int64(rnd.Intn(86400)), int64(rnd.Intn(86400))}
+		lm := ((-int64(off))%86400 + 86400) % 86400 // local midnight, as seconds of the UTC day
+		secs = append(secs, lm, (lm+86399)%86400, (lm+1)%86400, (lm+1800)%86400, (lm+86400-1800)%86400, (lm+43200)%86400)
+		for _, s := range secs {
+			if id >= f.N {
+				return
+			}
+			c := DCase{ID: id, Offset: off, Ts: (base + s) * 1000000000, Class: "utc"}
+			if off < 0 {
+				c.Class = "west"
+			} else if off > 0 {
+				c.Class = "east"
+			}
+			runDateCase(r, &c)
+			out.Put(c)
+			id++
+		}
+	}
+}
